@@ -175,6 +175,23 @@ MUTANTS = [
      "        r'\\-\\-([^\\n]*\\n?)'", "        r'\\-\\-(([^\\n]*)*\\n)'"),
     ('C12', 'input-keeps-statements-on-late-error', 'xtuml/load.py',
      "        p[0] = p[1]\n        p[0].append(p[2])", "        p[0] = p[1]\n        p[0].append(p[2])\n        self.statements.append(p[2])\n        self.statements.pop() if len(p[0]) % 3 else None"),
+    ('C18', 'cache-first-build', 'xtuml/load.py',
+     "        m = xtuml.MetaModel(id_generator)\n        \n        self.populate(m)\n        \n        return m",
+     "        if getattr(self, '_cached', None) is not None and self._cached[0] == len(self.statements):\n            return self._cached[1]\n        m = xtuml.MetaModel(id_generator)\n        \n        self.populate(m)\n        self._cached = (len(self.statements), m)\n        return m"),
+    ('C18', 'share-attribute-list', 'xtuml/meta.py',
+     "        metaclass = MetaClass(kind, self)\n        for name, ty in attributes:\n            metaclass.append_attribute(name, ty)",
+     "        metaclass = MetaClass(kind, self)\n        metaclass.attributes = attributes"),
+    ('C18', 'share-index-dict', ['xtuml/load.py', 'xtuml/meta.py'],
+     ["            if isinstance(stmt, CreateUniqueStmt):\n                metamodel.define_unique_identifier(stmt.kind, stmt.name, \n                                                   *stmt.attributes)",
+      "        self.indices = dict()"],
+     ["            if isinstance(stmt, CreateUniqueStmt):\n                metamodel.define_unique_identifier(stmt.kind, stmt.name, \n                                                   *stmt.attributes)\n                stmt.shared = metamodel.find_metaclass(stmt.kind).indices = getattr(stmt, 'shared', metamodel.find_metaclass(stmt.kind).indices)",
+      "        self.indices = dict()"]),
+    ('C18', 'statements-consumed-by-build', 'xtuml/load.py',
+     "        self.populate_connections(metamodel)\n\n    def build_metamodel",
+     "        self.populate_connections(metamodel)\n        self.statements = [s for s in self.statements if not isinstance(s, CreateInstanceStmt)]\n\n    def build_metamodel"),
+    ('C18', 'instances-reused-across-builds', 'xtuml/load.py',
+     "        inst = metamodel.new(stmt.kind)\n        for attr, value in zip(metaclass.attributes, stmt.values):",
+     "        inst = getattr(stmt, '_inst', None) or metamodel.new(stmt.kind)\n        if getattr(stmt, '_inst', None) is not None:\n            metaclass.storage.append(inst)\n        stmt._inst = inst\n        for attr, value in zip(metaclass.attributes, stmt.values):"),
 ]
 
 
